@@ -245,6 +245,12 @@ impl<S: Read + Write> Client<S> {
         }
     }
 
+    /// Verification hook: build a connected client without running the negotiation
+    #[cfg(rdp_rs_verif)]
+    pub fn verif_new(transport: tpkt::Client<S>, selected_protocol: Protocols) -> Self {
+        Client::new(transport, selected_protocol)
+    }
+
     /// Getter for selected protocols
     pub fn get_selected_protocols(&self) -> Protocols {
         self.selected_protocol
